@@ -271,8 +271,14 @@ def astep (aw : AWorld) : AOp → AWorld × Out
           | .setCircuit _ c =>
             let r := cstep (setExp aw (sized e c.m)).cw op
             if r.2 = .done then ({ aw with cw := r.1 }, r.2) else (aw, r.2)
-          | .plain (.setFilter _) | .plain (.setNoise _) | .plain (.setParam _ _) | .plain .clearParams =>
+          | .plain (.setFilter _) | .plain (.setNoise _) | .plain (.setParam _ _) | .plain .clearParams
+          | .plain (.execute _ _ _ _) =>
             let r := cstep aw.cw op; ({ aw with cw := r.1 }, r.2)
+          | .plain (.prepare _ false _ kw) =>
+            -- nothing to send: `Circuit(0)` asserts, after the filter check and the parameter synchronisation
+            if (dget kw "command").isSome then (aw, .err .type)
+            else if e.filter.isNone then (aw, .err .value)
+            else (setExp aw (syncFilterParam e), .err .assertion)
           | _ => (aw, .err .precondition)
         else let r := cstep aw.cw op; ({ aw with cw := r.1 }, r.2)
       | none => let r := cstep aw.cw op; ({ aw with cw := r.1 }, r.2)
@@ -434,7 +440,8 @@ def AOp.delegate (aw : AWorld) : AOp → Option COp
       | some e =>
         if e.size = 0 then
           match op with
-          | .plain (.setFilter _) | .plain (.setNoise _) | .plain (.setParam _ _) | .plain .clearParams => some op
+          | .plain (.setFilter _) | .plain (.setNoise _) | .plain (.setParam _ _) | .plain .clearParams
+          | .plain (.execute _ _ _ _) => some op
           | _ => none
         else some op
       | none => some op
